@@ -447,8 +447,10 @@ def g_idle(rng):
 
 
 # ---------------------------------------------------------------------------
-def g_kill(rng):
-    """C06: forced shutdown arriving in every pool state, with nested pools and subprocesses."""
+def g_kill(rng, family=None):
+    """C06: forced shutdown arriving in every pool state, with nested pools and subprocesses.
+    family 'branching': a worker with two nested workers that each own a subprocess (kill_process_tree must
+    walk a branching tree); family 'already_shutting_down': a graceful non-waiting shutdown precedes the forced one."""
     kind = "reusable" if rng.random() < 0.5 else "plain"
     mw = rng.randint(1, 3)
     kw = {"max_workers": mw, "timeout": rng.choice([None, 10]) if kind == "plain" else 10}
@@ -460,6 +462,10 @@ def g_kill(rng):
         ops.append({"op": "wait", "futs": "all"})
     depth = rng.choice([0, 0, 1, 1, 2])
     n_long = rng.randint(1, mw + 3)
+    if family == "branching":
+        depth = max(depth, 1)
+        ops.append({"op": "submit", "ex": "e", "task": {"k": "nested", "kind": "plain", "kw": {"max_workers": 2, "timeout": 10},
+                                                         "sub": [{"k": "spawn_subprocess", "hang": 120}, {"k": "spawn_subprocess", "hang": 120}], "then": "hang"}})
     for i in range(n_long):
         r = rng.random()
         if depth >= 1 and r < 0.5:
@@ -477,7 +483,10 @@ def g_kill(rng):
         ops.append({"op": "submit", "ex": "e", "task": rng.choice([t_ok(rng), {"k": "endless"}])})
     if rng.random() < 0.4:
         ops.append({"op": "cancel", "fut": "__recent__"})
-    ops.append({"op": "sleep", "d": rng.choice([0.0, 0.02, 0.3, 0.8, 1.5])})
+    ops.append({"op": "sleep", "d": rng.choice([0.0, 0.02, 0.3, 0.8, 1.5]) if family != "branching" else rng.choice([4.0, 5.0])})
+    if family == "already_shutting_down" or (family is None and rng.random() < 0.15):
+        ops.append({"op": "shutdown", "ex": "e", "wait": False})
+        ops.append({"op": "sleep", "d": rng.choice([0.0, 0.05, 0.3])})
     via = rng.choice(["shutdown", "factory"]) if kind == "reusable" else "shutdown"
     threads = [ops]
     barriers = {}
@@ -486,6 +495,9 @@ def g_kill(rng):
     if rng.random() < 0.25:
         # from a second thread while the first is still submitting
         ops.insert(1, {"op": "barrier", "name": "b"})
+        if kill_op["op"] == "get_reusable":
+            # the other thread keeps submitting on the executor it holds (the old one), not on the replacement
+            kill_op = dict(kill_op, ex="e2", prev_ex="e")
         threads.append([{"op": "barrier", "name": "b"}, {"op": "sleep", "d": rng.choice([0.3, 0.8])}, kill_op])
         barriers = {"b": 2}
         tail = [{"op": "ns", "grace": 3.0, "after_forced": True}, {"op": "wait", "futs": "all"}, {"op": "census"}]
@@ -496,7 +508,7 @@ def g_kill(rng):
     prog = {"threads": threads, "end": "return", "tail": tail}
     if barriers:
         prog["barriers"] = barriers
-    return prog, {"gen": "g_kill", "kind": kind, "kw": kw, "depth": depth, "via": via}
+    return prog, {"gen": "g_kill", "kind": kind, "kw": kw, "depth": depth, "via": via, "family": family}
 
 
 def g_par(rng):
@@ -504,6 +516,9 @@ def g_par(rng):
     kind = "reusable" if rng.random() < 0.65 else "plain"
     mw = rng.randint(1, 8)
     tmo = rng.choice([None, 10, 0.05, 0.02]) if kind == "plain" else rng.choice([10, 0.05, 0.02])
+    grow = kind == "reusable" and rng.random() < 0.35
+    if grow:
+        mw = rng.choice([1, 1, 2])  # created small, grown by more than a factor of two later
     kw = {"max_workers": mw, "timeout": tmo}
     ops = [{"op": "new", "ex": "e", "kind": kind, "kw": kw}]
     grp = 0
@@ -515,8 +530,8 @@ def g_par(rng):
                 ops.append({"op": "submit", "ex": "e", "task": t_sleep(rng, 0.01, 0.06)})
         elif r < 0.55:
             ops.append({"op": "sleep", "d": round(min(0.5, (tmo or 0.02) * rng.choice([1.5, 3])), 3)})
-        elif r < 0.8 and kind == "reusable":
-            cur = rng.randint(1, 8)
+        elif (r < 0.8 or (grow and step == 0)) and kind == "reusable":
+            cur = rng.randint(1, 8) if not (grow and step == 0) else 8
             ops.append({"op": "get_reusable", "ex": "e", "kw": dict(kw, max_workers=cur)})
         else:
             for _ in range(rng.randint(1, cur)):
@@ -616,8 +631,35 @@ def g_resize(rng):
         if rng.random() < 0.6:
             ops.append({"op": "submit", "ex": "e", "task": t_ok(rng)})
             ops.append({"op": "wait", "futs": "all"})
+    family = "plain"
+    if rng.random() < 0.3:
+        # every worker idles out first, then the pool is shrunk; the kept workers must stay (nobody asked them to leave)
+        family = "expired_then_shrink"
+        kw = {"max_workers": rng.randint(3, 6), "timeout": 2.5}
+        new = rng.randint(1, kw["max_workers"] - 1)  # (the pause below is long enough for every worker to be gone well before the call)
+        ops = [{"op": "new", "ex": "e", "kind": "reusable", "kw": kw}]
+        for _ in range(kw["max_workers"]):
+            ops.append({"op": "submit", "ex": "e", "task": t_sleep(rng, 0.02, 0.05)})
+        ops += [{"op": "wait", "futs": "all"}, {"op": "sleep", "d": 5.6},
+                {"op": "get_reusable", "ex": "e", "kw": dict(kw, max_workers=new), "resize": [kw["max_workers"], new]},
+                {"op": "sleep", "d": 1.5}, {"op": "quiesce", "ex": ["e"], "settle": False, "after_resize": True},
+                {"op": "submit", "ex": "e", "task": t_ok(rng)}, {"op": "wait", "futs": "all"}]
     ops += [{"op": "wait", "futs": "all"}, {"op": "quiesce", "ex": ["e"]}]
-    return {"threads": [ops], "end": "return"}, {"gen": "g_resize", "kw": kw, "old": old}
+    threads = [ops]
+    prog = {"threads": threads, "end": "return"}
+    if family == "plain" and rng.random() < 0.4:
+        # a second thread keeps submitting on the executor it holds while the first one resizes
+        family = "concurrent_submitter"
+        sub = [{"op": "barrier", "name": "go"}]
+        for _ in range(rng.randint(10, 40)):
+            sub.append({"op": "submit", "ex": "e", "task": t_ok(rng)})
+            if rng.random() < 0.4:
+                sub.append({"op": "sleep", "d": rng.choice([0.001, 0.01, 0.03])})
+        ops.insert(3, {"op": "barrier", "name": "go"})
+        threads.append(sub)
+        prog["barriers"] = {"go": 2}
+        prog["tail"] = [{"op": "wait", "futs": "all"}, {"op": "quiesce", "ex": ["e"]}]
+    return prog, {"gen": "g_resize", "kw": kw, "old": old, "family": family}
 
 
 # ---------------------------------------------------------------------------
@@ -872,6 +914,8 @@ def g_tree(rng):
     tmo = rng.choice([0.5, 1.0])
     ops = [{"op": "tracker", "what": "ensure"}, {"op": "tracker", "what": "register_file", "name": "res0"}]
     kw = {"max_workers": rng.randint(1, 3), "timeout": tmo}
+    if rng.random() < 0.4:
+        kw["context"] = "loky_init_main"
     ops.append({"op": "new", "ex": "e", "kind": rng.choice(["plain", "reusable"]), "kw": kw})
 
     def chain(level):
@@ -898,7 +942,7 @@ def g_tree(rng):
     elif variant == "kill_tracker":
         for i in range(rng.randint(1, 3)):
             ops.append({"op": "tracker", "what": "kill"})
-            ops.append({"op": "tracker", "what": rng.choice(["mk_sem", "register_file"]), "obj": "s%d" % i, "name": "resk%d" % i})
+            ops.append({"op": "tracker", "what": rng.choice(["mk_sem", "register_file", "spawn_probe", "spawn_probe"]), "obj": "s%d" % i, "name": "resk%d" % i, "ctx": rng.choice(["loky", "loky_init_main"])})
             if rng.random() < 0.5:
                 ops.append({"op": "submit", "ex": "e", "task": {"k": "probe", "what": ["pid"]}})
                 ops.append({"op": "wait", "futs": "all"})
@@ -917,4 +961,5 @@ def g_tree(rng):
         ops.append({"op": "tracker", "what": "ensure"})
         ops.append({"op": "sleep", "d": 0.2})
     ops.append({"op": "tracker", "what": "ensure", "final": True})
-    return {"threads": [ops], "end": end}, {"gen": "g_tree", "depth": depth, "variant": variant, "kw": kw}
+    main_tracked = rng.random() < 0.4
+    return {"threads": [ops], "end": end}, {"gen": "g_tree", "depth": depth, "variant": variant, "kw": kw, "main_level_tracked": main_tracked}
